@@ -29,6 +29,7 @@ type Obligation struct {
 	Model   string
 	gen     *FnGen
 	Bounded bool
+	Tags    map[int]bool // blocks whose lines are relevant (ancestors of the obligation's block); nil = all
 }
 
 type State struct {
@@ -98,7 +99,11 @@ type FnGen struct {
 	retSites    int
 	curInstr    ssa.Instruction
 	xexits      []xexit // exceptional exits (call may panic)
+	xtagBlock   map[int]int
 	inDeferX    bool
+	lineTag     []int
+	curTag      int
+	anc         map[int]map[int]bool
 	curReach    string
 	track       map[string]Term
 	trackOrder  []string
@@ -107,6 +112,7 @@ type FnGen struct {
 }
 
 type xexit struct {
+	block   int
 	reach   string
 	st      *State
 	pos     string
@@ -128,7 +134,10 @@ type debugRef struct {
 	idx    int
 }
 
-func (g *FnGen) emit(s string)              { g.lines = append(g.lines, s) }
+func (g *FnGen) emit(s string) {
+	g.lines = append(g.lines, s)
+	g.lineTag = append(g.lineTag, g.curTag)
+}
 func (g *FnGen) note(s string)              { g.assumptions[s] = true }
 func (g *FnGen) fresh(prefix string) string { g.n++; return q(fmt.Sprintf("%s!%d", prefix, g.n)) }
 func (g *FnGen) assume(reach, f string) {
@@ -164,6 +173,7 @@ func (g *FnGen) oblige(kind, label string, props []string, reach, goal, src stri
 		name += "." + label
 	}
 	o := &Obligation{Name: name, Fn: g.key, Kind: kind, Label: label, Props: props, NLines: len(g.lines), Reach: reach, Goal: goal, Pos: posOf(g.w, pos), Src: src, gen: g}
+	o.Tags = g.relevantTags()
 	g.obls = append(g.obls, o)
 	return o
 }
@@ -203,11 +213,14 @@ func (g *FnGen) hgetRaw(st *State, key string) Term {
 	if !ok {
 		panic("unknown heap key " + key)
 	}
+	saved := g.curTag
+	g.curTag = -1 // the entry value of a heap component is shared by all blocks
 	t := g.declare(q("H0:"+key), srt)
 	g.initHeap[key] = t
 	if key == "alloc" {
 		g.emit(fmt.Sprintf("(assert (>= %s 0))", t.S))
 	}
+	g.curTag = saved
 	return t
 }
 
@@ -270,6 +283,14 @@ func (g *FnGen) typeFacts(t Term, typ types.Type, st *State) []string {
 		out = append(out, fmt.Sprintf("(<= 0 %s)", t.S))
 		if st != nil {
 			out = append(out, fmt.Sprintf("(<= %s %s)", t.S, g.allocTerm(st).S))
+			if p, ok := u.(*types.Pointer); ok {
+				if _, isNamed := types.Unalias(p.Elem()).(*types.Named); isNamed {
+					if _, isStruct := p.Elem().Underlying().(*types.Struct); isStruct {
+						g.w.heapSort["typ"] = "(Array Int Int)"
+						out = append(out, fmt.Sprintf("(or (= %s 0) (= (select %s %s) %d))", t.S, g.hget(st, "typ").S, t.S, g.w.structID(p.Elem())))
+					}
+				}
+			}
 		}
 	}
 	return out
@@ -295,6 +316,7 @@ func NewFnGen(w *World, fn *ssa.Function) *FnGen {
 		debug: map[string][]debugRef{}, assumptions: map[string]bool{}, params: map[string]SVal{}, iters: map[ssa.Value]*iterInfo{}}
 	g.pkg = strings.SplitN(g.key, ".", 2)[0]
 	g.con = w.contracts[g.key]
+	g.curTag = -1
 	return g
 }
 
@@ -382,6 +404,12 @@ func (g *FnGen) Generate() {
 	}
 	// receiver of a method is never nil? No: Go allows nil receivers. Nothing assumed.
 	// global invariants and axioms
+	for _, c := range g.w.axioms {
+		env := g.envAt(st, st, nil)
+		env.pkg = g.w.globalPkg[c]
+		env.vars = map[string]SVal{}
+		g.assume("", g.evalBool(env, c))
+	}
 	g.assumeGlobals(st, "true")
 	// requires
 	for _, c := range g.clauses("requires") {
@@ -398,6 +426,7 @@ func (g *FnGen) Generate() {
 		g.block(b, cur)
 	}
 	g.finishExceptional()
+	g.curTag = -1
 	g.callsOnly()
 }
 
@@ -410,7 +439,10 @@ func (g *FnGen) finishExceptional() {
 	}
 	w := g.w
 	w.heapSort["panicking"], w.heapSort["panicval"], w.heapSort["recovered"] = "Bool", "Int", "Bool"
+	g.xtagBlock = map[int]int{}
 	for i, x := range g.xexits {
+		g.curTag = -2 - i
+		g.xtagBlock[g.curTag] = x.block
 		st := x.st
 		reach := g.define(g.fresh(fmt.Sprintf("xreach.%d", i)), Term{x.reach, "Bool"}).S
 		g.runDefersX(st, reach, x.ndefers)
@@ -643,7 +675,49 @@ func (g *FnGen) mergeIn(b *ssa.BasicBlock, entry *State) (*State, string, [][2]i
 	return st, reach, preds
 }
 
+// relevantTags: lines emitted by blocks that cannot reach the current block only carry assumptions guarded by
+// reach conditions that are false on every path to the obligation; they are left out of its query.
+func (g *FnGen) relevantTags() map[int]bool {
+	if g.curTag == -1 {
+		return nil
+	}
+	t := map[int]bool{-1: true, g.curTag: true}
+	base := g.curTag
+	if base <= -2 {
+		base = g.xtagBlock[base]
+	}
+	for a := range g.ancestors(base) {
+		t[a] = true
+	}
+	t[base] = true
+	return t
+}
+
+func (g *FnGen) ancestors(b int) map[int]bool {
+	if g.anc == nil {
+		g.anc = map[int]map[int]bool{}
+	}
+	if a, ok := g.anc[b]; ok {
+		return a
+	}
+	a := map[int]bool{}
+	var walk func(i int)
+	walk = func(i int) {
+		for _, p := range g.fn.Blocks[i].Preds {
+			if g.backEdge[[2]int{p.Index, i}] || a[p.Index] {
+				continue
+			}
+			a[p.Index] = true
+			walk(p.Index)
+		}
+	}
+	walk(b)
+	g.anc[b] = a
+	return a
+}
+
 func (g *FnGen) block(b *ssa.BasicBlock, entry *State) {
+	g.curTag = b.Index
 	st, reachExpr, preds := g.mergeIn(b, entry)
 	rname := q(fmt.Sprintf("reach.%d", b.Index))
 	g.emit(fmt.Sprintf("(define-fun %s () Bool %s)", rname, reachExpr))
@@ -915,6 +989,10 @@ func (g *FnGen) instr(in ssa.Instruction, st *State, reach string, b *ssa.BasicB
 				key, _ := w.fieldKey(elem, i)
 				z := w.zero(stt.Field(i).Type())
 				g.hset(st, key, Term{fmt.Sprintf("(store %s %s %s)", g.hget(st, key).S, ref.S, z.S), w.heapSort[key]})
+			}
+			if _, isNamed := types.Unalias(elem).(*types.Named); isNamed {
+				w.heapSort["typ"] = "(Array Int Int)"
+				g.hset(st, "typ", Term{fmt.Sprintf("(store %s %s %d)", g.hget(st, "typ").S, ref.S, w.structID(elem)), "(Array Int Int)"})
 			}
 			// ghost fields keep arbitrary values
 		} else if at, ok := types.Unalias(elem).Underlying().(*types.Array); ok {
@@ -1392,7 +1470,7 @@ func (g *FnGen) mapCardFacts(st *State, mt *types.Map, m Term) {
 	dom, _, card, ks, _ := g.w.mapKeys(mt)
 	c := fmt.Sprintf("(select %s %s)", g.hget(st, card).S, m.S)
 	g.emit(fmt.Sprintf("(assert (>= %s 0))", c))
-	g.emit(fmt.Sprintf("(assert (=> (= %s 0) (forall ((k %s)) (! (not (select (select %s %s) k)) :pattern ((select (select %s %s) k))))))", c, ks, g.hget(st, dom).S, m.S, g.hget(st, dom).S, m.S))
+	g.emit(fmt.Sprintf("(assert (=> (= %s 0) (forall ((k %s)) (not (select (select %s %s) k)))))", c, ks, g.hget(st, dom).S, m.S))
 	g.note("map cardinality: len(m)==0 implies no key present (axiom of finite maps)")
 }
 
@@ -1410,7 +1488,7 @@ func (g *FnGen) next(in *ssa.Next, st *State, reach string) {
 		vis := g.hget(st, it.key)
 		d := fmt.Sprintf("(select %s %s)", g.hget(st, dom).S, it.x.S)
 		g.assume(reach, fmt.Sprintf("(=> %s (and (not (= %s 0)) (select %s %s) (not (select %s %s))))", ok.S, it.x.S, d, k.S, vis.S, k.S))
-		g.assume(reach, fmt.Sprintf("(=> (not %s) (or (= %s 0) (forall ((kk %s)) (! (=> (select %s kk) (select %s kk)) :pattern ((select %s kk))))))", ok.S, it.x.S, ks, d, vis.S, d))
+		g.assume(reach, fmt.Sprintf("(=> (not %s) (or (= %s 0) (forall ((kk %s)) (=> (select %s kk) (select %s kk)))))", ok.S, it.x.S, ks, d, vis.S))
 		v := g.define(q(in.Name()+".v"), Term{fmt.Sprintf("(select (select %s %s) %s)", g.hget(st, val).S, it.x.S, k.S), vs})
 		g.assumeType(v, it.mt.Elem(), st)
 		g.hset(st, it.key, Term{fmt.Sprintf("(ite %s (store %s %s true) %s)", ok.S, vis.S, k.S, vis.S), vis.Sort})
@@ -1469,8 +1547,11 @@ func (g *FnGen) checkPost(st *State, reach string, rs []SVal, pos token.Pos, kin
 func (g *FnGen) frameObligation(c *Clause, st *State, reach string, pos token.Pos) {
 	keys := g.w.expandKey(c.Key)
 	for _, key := range keys {
-		if _, ok := g.w.heapSort[key]; !ok {
+		if srt, ok := g.w.heapSort[key]; !ok || !strings.HasPrefix(srt, "(Array Int ") {
 			continue
+		}
+		if len(c.Refs) == 0 && !strings.Contains(c.Src, ":") {
+			continue // whole-array footprint: nothing to prove
 		}
 		env := g.envAt(g.entry, g.entry, nil)
 		var excl []string
@@ -1492,7 +1573,7 @@ func (g *FnGen) panicInstr(in *ssa.Panic, st *State, reach string) {
 	// explicit panic: allowed when the contract says maypanic (documented behaviour), else an obligation
 	if g.con != nil && g.con.Flags["maypanic"] {
 		// C05: the panic value must not be a runtime error: statically an explicit value
-		g.xexits = append(g.xexits, xexit{reach, st.clone(), posOf(g.w, in.Pos()), len(g.defers)})
+		g.xexits = append(g.xexits, xexit{in.Block().Index, reach, st.clone(), posOf(g.w, in.Pos()), len(g.defers)})
 		return
 	}
 	k := g.ordinal("safe.panic")
